@@ -14,7 +14,7 @@ CLAIMED = {
     "C01": ("static must-call / ordering / who-may-call analysis over SSA + VTA call graph",
             "Structural necessary conditions of at-least-once delivery, decided on all paths and all callers: final flush chain (connection → sink → orchestrator buffers → worker chunk makers), "
             "teardown order, deletion authority (chunk files are unlinked only from the consumed/corrupted callbacks, the consumed callback only from the acknowledger after an ACK), "
-            "hand-back of unsent chunks at stop, recovery wiring at start. It does not decide that the upstream eventually acknowledges nor byte-exactness; breaking any clause breaks delivery for some schedule.", "§4 C01"),
+            "hand-back of unsent chunks at stop, recovery wiring at start (recovery synchronous in Start), the final flush of a connection walks exactly the map that Accept fills (append-only local map, Walk/GetOrCreate agree). It does not decide that the upstream eventually acknowledges nor byte-exactness; breaking any clause breaks delivery for some schedule.", "§4 C01"),
     "C02": ("static path rules (dominance by error edges, typestate of the in-flight chunk, holder enumeration from types) over SSA",
             "On every path of the client's functions: the delivered-callback follows a successful ACK read of the same iteration and receives the chunk designated by that ACK; "
             "chunks are queued for ACK only after a nil-error send; the in-flight chunk is remembered until queued; collectLeftovers merges every chunk-holding field (enumerated from the struct type); "
@@ -25,7 +25,7 @@ CLAIMED.update({
     "C03": ("static exactly-once path enumeration with return-correlated summaries, who-may-send/receive, result-use and dominance rules over SSA",
             "On every path: Accept counts a chunk in once and resolves it once (enqueued or dropped) and reaches no blocking operation; Load/Unload failures reach the dropped accounting; the quota test dominates the write and "
             "saved/gauge effects only follow a nil-error write; zero-length chunks are corrupt; the feeder keeps the chunk in hand exactly on abort; single producer/consumer ownership of both queues; sorted and filtered recovery scan; "
-            "capacities and spill threshold share their parameters; every resolution callback balances the pending gauge. Byte equality and the numeric size bound are not decided.", "§4 C03"),
+            "capacities and spill threshold share their parameters; a chunk is queued still loaded only through the below-threshold edge of the window test; every resolution callback balances the pending gauge; the persistent gauges move at most once per chunk event and only with the files. Byte equality and the numeric size bound are not decided.", "§4 C03"),
     "C04": ("static result-use (byte-count) and must-precede rules over the persistence call tree",
             "Every write/read syscall of the persistence call tree has its byte count consumed in a loop or short-count test, success is only returned after a checked close, the file is created under a temporary name that no chunk-id matcher accepts "
             "(evaluated on the constants) and renamed only after write+close, saved-marking only after a nil-error write, zero-length and unmatched files are never forwarded. What the kernel does and fsync ordering are assumed.", "§4 C04"),
@@ -39,13 +39,13 @@ CLAIMED.update({
             "Accounting and truncation clauses of the parser on every path: one of pass/drop per message after RawLength is set, nil exactly on drop paths with one release, overflow counted and UTF-8 clean-up on every path that cuts the message, "
             "one release on input-stage drops. Header substring faithfulness is value-level and not decided.", "§4 C09"),
     "C19": ("static exactly-once path enumeration with return-correlated summaries; must-call for counter flushes; operand provenance",
-            "Every counter update is tied to the event it describes on all paths (parser, pipeline worker, buffer, client), batched counters are flushed after the last count at stop/close/flush, the metric key set is selected before transforms count. "
+            "Every counter update is tied to the event it describes on all paths (parser, pipeline worker, buffer, client), batched counters are flushed after the last count at stop/close/flush, the metric key set is selected before transforms count; the persistent-chunk gauges move at most once per chunk event. "
             "One known finding (input-stage drops are not accounted). The balance equations as numbers across goroutines are not decided.", "§4 C19"),
 })
 
 CLAIMED.update({
     "C17": ("static lock-held must-dataflow (guarded-by), must-precede ordering incl. LIFO of defers, who-may-write",
-            "Lock discipline and ordering of the reload machinery on all paths: every access to downstream / slots / addresses and every dereference of a sink's slot pointer is under the RB-mutex (writes of downstream under the write lock); "
+            "Lock discipline and ordering of the reload machinery on all paths: every access to downstream / slots / addresses every dereference of a sink's slot pointer and every call on a sink value taken from a slot is under the RB-mutex (writes of downstream under the write lock); "
             "reload validates before locking, fails without side effects, and under the lock closes sinks, shuts down, renews, re-creates sinks; the loader is swapped only in the completion closure handed out after parse+compatibility succeeded; "
             "a connection's sink is closed before its descriptor (slot index) is released. The interleavings themselves are not explored (not a linearizability argument).", "§4 C17"),
 })
@@ -68,7 +68,7 @@ CLAIMED.update({
             "Structure of the chunk maker on all paths: one write per stream into the chunk current after roll-over, flush resets, records counted exactly when written, compressor closed before the buffer is read, chunk data is a copy, "
             "id/option/count come from the same intermediate chunk, the id suffix written equals the suffix matched. Well-formedness of the encoded bytes and the limits as numbers are not decided.", "§4 C11"),
     "C12": ("static reset-exhaustiveness over the struct's fields (enumerated from types), use-after-release path rule, backward taint from long-lived sinks to transient-string sources with deep-copy sanitizers, who-may-write",
-            "Every LogRecord field is cleared on the recycle path or assigned by every producer; no use after the final release; transient strings reach long-lived maps/labels/constructors only through a deep copy; scratch buffers do not escape without a copy; "
+            "Every LogRecord field is cleared on the recycle path or assigned by every producer; no use after the final release; transient strings reach long-lived maps/labels/constructors only through a deep copy; scratch buffers do not escape without a copy; no store of a record-transient string into any long-lived field, map or global of the per-record run-time set without a copy; "
             "serialization and rewriting never store into a record. sync.Pool behaviour and sampling state are not decided.", "§4 C12"),
     "C15": ("static control-flow shape rules over the transform chain and container transforms; exactly-once enumeration of the sampling bookkeeping",
             "NARROW claim: only the composition and bookkeeping clauses (first DROP wins; containers return their nested chain's result; non-filtering transforms always PASS; truncate's cut uses the UTF-8 cleaner under the documented guard; drop's counters once per record). "
@@ -151,7 +151,7 @@ def main():
         }],
         "checks": checks,
         "not_applicable": na,
-        "notes": "All checks are static: they load /repo's current working tree on every run and report file:line + rule + construct. Exit 2 with a CHECK-BROKEN line means the checker could not resolve one of its anchors (never a pass). "
+        "notes": "All checks are static: they load /repo's current working tree on every run and report file:line + rule + construct. A rule that cannot be decided on the tree (anchor gone, fewer instances than confirmed by hand) is reported as a violated obligation of that rule (CHECK-BROKEN line + VIOLATION, exit 1); exit 2 means the tree could not be loaded or type-checked (never a pass). "
                  "Known findings are listed in /verif/known-findings.json. Mutants and benign variants are in selftest/mutants.py (run by the thorough tier).",
     }
     json.dump(man, open(os.path.join(VERIF, "MANIFEST.json"), "w"), indent=1)
